@@ -210,10 +210,40 @@ def conv_check(ctx, db, desc, blk):
     return "ok", "iter"
 
 
-def oracle_conv(desc, im):
-    """direct oracle of the property on the implementation's own output for a per-kg-water case: every total equals
-    amount × water (amount recomputed from the written number and the weight the input names)"""
-    return None
+def restate(db, text, desc):
+    """direct oracle for a convert_units case: the same solution with every component rewritten in the base unit of the
+    same family (Mol/<den>, or eq/<den> where the component is in equivalents), the amount computed here from the written
+    number, prefix and the weight the input names. By the property both inputs describe one system."""
+    den = desc["den"]
+    lines_a, lines_b = [], []
+    for ln in text.splitlines():
+        if ln.startswith(("SELECTED_OUTPUT", "USER_PUNCH", " -reset", " 10 x =", " 20 PUNCH", "END")):
+            continue
+        lines_a.append(ln)
+    head = [ln for ln in lines_a if ln.split()[0] in ("SOLUTION", "pH", "density", "-water")]
+    base = "mol/" + {"kgw": "kgw", "l": "l", "kgs": "kgs"}[den]
+    lines_b = [head[0]] + [ln for ln in head[1:]] + [f" units {base}"]
+    elems = []
+    for c in desc["comps"]:
+        eff = expected_units(desc, c)
+        pre, kind, _ = G.canon_parts(eff)
+        n = c["conc"] * G.PREF[pre]
+        if kind == "g":
+            if c["gfw"] > 0:
+                g = c["gfw"]
+            elif c["as_f"]:
+                g = db.gfw(c["as_f"]) / (2.0 if (c["name"] == "Alkalinity" and c["as_f"] == "CaCO3") else 1.0)
+            else:
+                g = c["master"]
+            n = n / g
+        unit = ("eq/" + den) if kind == "eq" else ""
+        lines_b.append(f" {c['name']} {n!r} {unit}".rstrip())
+        elems.append(c["name"])
+    obs = G.observables(elems)
+    pb = G.punch_block(obs)
+    a = pb + "\n".join(lines_a) + "\nEND\n"
+    b = pb + "\n".join(lines_b) + "\nEND\n"
+    return dict(kind="speciation", fam="units(restated)", k=1.0, a=a, b=b, last_only=False, obs=[(t, h) for t, h, _ in obs])
 
 
 # ---------------------------------------------------------------------------------------------- (i') mixing algebra
@@ -489,6 +519,7 @@ def run(ctx):
     hist = {}
     evals = 0
     distinct = 0
+    corr_fail = []
 
     # (i) convert_units correspondence
     n1 = 2500 if big else 160
@@ -510,9 +541,20 @@ def run(ctx):
         elif st == "skip":
             cstat["skip"] += 1
         else:
-            ctx.violation("convert_units: real code and model disagree (unit conversion of an initial solution): " + det,
-                          {"kind": "conv", "input": text, "desc": desc, "detail": det})
-            break
+            # protocol Q: correspondence broken → the property's direct oracle on the implementation's own output
+            pair = restate(db, text, desc)
+            st2, det2 = run_pairs(ctx, exe, dbpath, [pair])[0]
+            ctx.log("convert_units: code and model disagree:", det, "| oracle on the restated input:", st2, det2)
+            if st2 in ("bad", "asym"):
+                ctx.violation(f"convert_units differs from its model ({det}) and the same solution restated in {pair['b'].split('units ')[1].split()[0]} "
+                              f"gives different results: {det2}",
+                              {"kind": "pair", "pair": pair, "detail": det2, "conv": {"input": text, "desc": desc, "detail": det}})
+                corr_fail.append(None)
+                break
+            corr_fail.append(("convert_units: real code and model disagree: " + det,
+                              {"kind": "conv", "input": text, "desc": desc, "detail": det}))
+            if len(corr_fail) >= 5:
+                break
     ctx.cov["convert_units"] = cstat
 
     # (i') mixing algebra correspondence
@@ -529,10 +571,13 @@ def run(ctx):
         elif st == "skip":
             mstat["skip"] += 1
         else:
-            ctx.violation("mixing algebra: real add_mix / cxxSolution mixing and the model disagree: " + det,
-                          {"kind": "mix", "input": text, "lines": lines, "detail": det})
+            ctx.log("mixing algebra: code and model disagree:", det)
+            corr_fail.append(("mixing algebra: real add_mix / cxxSolution mixing and the model disagree: " + det,
+                              {"kind": "mix", "input": text, "lines": lines, "detail": det}))
             break
     ctx.cov["mixing"] = mstat
+    if corr_fail:
+        big = True          # correspondence broken: search at the thorough budget
 
     # (ii) metamorphic pairs on the real engine
     n3 = 3000 if big else 150
@@ -576,6 +621,10 @@ def run(ctx):
                        "transformed input over 7 system kinds x 11 transformation families compared cell by cell through "
                        "GetSelectedOutputValue; distinct = cases that ran and were judged (skips: runs ending with an ERROR in both "
                        "descriptions).")
+    corr = [c for c in corr_fail if c]
+    if corr and not ctx.violations:
+        ctx.violation(corr[0][0] + " — no pair of equivalent descriptions with different results was found",
+                      dict(corr[0][1], all=[c[0] for c in corr]), found_input=False)
     if not ok and not ctx.violations:
         ctx.violation("proof obligation of C15 no longer checks and no failing input was found",
                       {"broken": ctx.proof_broken}, found_input=False)
